@@ -176,8 +176,15 @@ class PropertyDescriptor(Symbol):
          relation).
         :param inferred: Whether the relation is inferred or not.
         """
-        if domain_value and range_value:
-            for v in make_set(range_value):
+        # do not ask for the truth value of the instances (an instance can be falsy, e.g., a symbol that defines __len__)
+        # and do not iterate them (an instance can be iterable), only builtin collections are collections of values.
+        if domain_value is not None and range_value is not None:
+            range_values = (
+                range_value
+                if isinstance(range_value, (list, tuple, set, frozenset))
+                else [range_value]
+            )
+            for v in range_values:
                 PropertyDescriptorRelation(
                     domain_value, v, self.wrapped_field, inferred=inferred
                 ).add_to_graph()
